@@ -23,6 +23,11 @@ def shards(mode, bin_, n, **kw):
 
 
 PROPS = {
+    "C06": {
+        "runs": [native("c06")],
+        "expect_monitors": ["f32_to_uint_sweep", "f64_to_uint", "uint_source_u8", "uint_source_u16", "uint_source_u32", "uint_source_u64", "uint_source_u128", "format_wiring"],
+        "assumptions": ASSUME_COMMON + ["exact oracle: u128 / two-limb 256-bit integer arithmetic on the decomposed float"],
+    },
     "C11": {
         "runs": [native("c11")],
         "expect_monitors": ["normal_form_signed_f32", "normal_form_unsigned_f32", "normal_form_f64", "equality_turns", "cartesian_radians", "u8_hue", "angle_traits"],
